@@ -12,18 +12,41 @@ def _c01_nontrivial(t):
 
 
 def _c01_extra(results):
-    replies = closed = entries = 0
+    replies = closed = stored = filtered = declared = oversize = over_reply = unlistable = 0
     for inp, out, v, src in results:
         t = inp.split()
         if len(t) >= 2 and t[1] in ("reply", "replyraw"):
             o = out.split()
+            if t[1] == "reply":
+                sent = o[0] if o else "-"
+                if len(t) >= 8 and t[7] != "-":
+                    filtered += 1
+                if len(t) >= 12 and t[11].startswith("q:"):
+                    declared += 1
+            else:
+                sent = t[3] if len(t) >= 4 else "-"
+            big = sent != "-" and len(sent) // 2 > 2048
             if o and o[-1] == "closed":
                 closed += 1
+                oversize += big
             elif o:
                 replies += 1
-                if len(o) >= 2 and o[-2] != "_":
-                    entries += o[-2].count(",") + 1
-    return {"handler_replies": replies, "handler_closed_without_reply": closed, "listed_entries_decoded": entries}
+                over_reply += big
+            if len(o) >= 6 and o[-2] != "_":
+                for r in o[-2].split(","):
+                    stored += 1
+                    f = r.split(":")
+                    if len(f) > 3 and "@" in f[3]:
+                        st, rf = f[3].split("@", 1)
+                        try:
+                            live = rf != "z" and int(rf) >= int(o[-4]) - int(o[-3])
+                            unlistable += not (int(st) & 2 and live)
+                        except ValueError:
+                            pass
+    return {"handler_replies": replies, "handler_closed_without_reply": closed, "stored_records": stored,
+            "stored_records_stale_or_without_master": unlistable, "reply_cases_with_filter": filtered,
+            "reply_cases_with_declared_clauses": declared, "requests_over_2048_bytes_no_reply": oversize,
+            "requests_over_2048_bytes_replied_declared_length_within_buffer": over_reply}
 
 
 CFG = {
@@ -93,19 +116,28 @@ CFG = {
             "truncation, trailing bytes, bad option words, short challenge, NUL in names, missing leading backslash, random bytes, "
             "byte flips/removals, minimum length and one below); `reply` = structured requests (1..25 raw fields in random order "
             "with unknown names mixed in, random challenges incl. 00/FF runs, both option words, random header/game names) sent over "
-            "a loopback TCP connection to the real browser.Handler, against registries of 0..N records planted through the real "
-            "servers repository (strings from ASCII, UTF-8/latin-1 text, SWAT markup, bytes 00/FF/5C and end-marker look-alikes, "
+            "a loopback TCP connection to the real browser.Handler, with empty, well-formed (1..3 clauses around values the registry "
+            "stores, over gametype/gamevariant/gamever/numplayers/password and every other queryable field, with the clauses "
+            "declared to the driver), malformed and random filter strings, one request in 25 padded by a long filter or many "
+            "fields to 2047/2048/2049/2050/4000 bytes (the handler reads 2048 once), against registries of 0..N records planted "
+            "through the real servers repository - mostly live master records, one in seven without the master bit, a third "
+            "refreshed at/one tick before/one tick after now-liveness, long ago, never (zero time) or ahead of the clock, and one "
+            "registry per run with exactly 300 selected servers (strings from ASCII, UTF-8/latin-1 text, SWAT markup, bytes 00/FF/5C and end-marker look-alikes, "
             "empty, 1-2 KiB; ints incl. negative and 64-bit extremes; query ports beyond 16 bits; server IPs incl. x.255.255.255); "
-            "`replyraw` = malformed payloads through the same handler. Compared: parser outcome; the full encrypted reply bytes "
-            "(model run on the stored registry in the order the reply lists it, header draws recovered from the reply). Oracle: "
+            "`replyraw` = malformed payloads through the same handler, incl. requests followed by bytes beyond the read buffer "
+            "with the declared length inside or outside it. Compared: parser outcome; the full encrypted reply bytes against "
+            "BrowserE2E.browserHandle (the function of browser_end_to_end: 2048-byte cut, NewRequest, filter string -> query, "
+            "listing with status master and the harness's clock and liveness over the stored registry, packServers, Encrypt) "
+            "with `order` = the order the reply lists the servers in and the header draws recovered from the reply. Oracle: "
             "SDK reference decryption + SDK framing decoder on the implementation's bytes equals the promised list (entries as a "
-            "multiset). non-trivial = a structured request against a non-empty registry, or a parser payload of >= 26 bytes",
+            "multiset) for the stored servers that FilterSpec.selected accepts under the declared clauses (the model's reading "
+            "when none is declared); a well-formed request over 2048 bytes gets no reply. non-trivial = a structured request against a non-empty registry, or a parser payload of >= 26 bytes",
     "assumptions": [
         "the SDK server-list framing rules (Spec/ServerList.lean) and the SDK cipher (Spec/GOA.lean) are transcriptions from knowledge of the GameSpy SDK; its sources are not available offline",
         "no listed server has the address 255.255.255.255 (the SDK's end-of-list marker); addr.New rejects it (C17)",
-        "C01_main takes the selected list as a parameter; browser_end_to_end composes it with C03's selection (BrowserE2E.browserHandle: parse, filter string -> query, listservers over a registry of Stored servers, pack, encrypt). The C01 harness plants only fresh master-status records and sends an empty filter; the real handler with non-empty filters over TCP is exercised by C03's `blist` stream",
+        "C01_main takes the selected list as a parameter; browser_end_to_end composes it with C03's selection (BrowserE2E.browserHandle: parse, filter string -> query, listservers over a registry of Stored servers, pack, encrypt). The C01 driver runs browserHandle itself (Drv/C01.lean imports Lemmas/BrowserEndToEnd.lean) on registries with stale, never-refreshed and non-master records and non-empty filters; the clock of the C01 harness does not move and its liveness is the default 180 s (C03's `blist`/`list` streams vary both)",
         "browser_end_to_end: a stored server is BrowserE2E.Stored = the filter model's Record (status, refreshedAt, named Info; addr an opaque key) plus Addr.IP, Addr.Port, QueryPort; the Info values packServers renders are computed from the record the filter is evaluated on (infoVals), assuming the record has the details.Info shape (Shaped Facts.infoSchema: Go's typing) — the filter model's and the browser model's schemas are proved equal (schemas_agree)",
-        "the handler's single Read into a 2048-byte buffer is modelled as 'the first 2048 bytes sent' (C01_main_bounded / C01_oversize_no_reply); TCP segmentation (a request delivered in several segments is cut at the first by the same code), IPv6 peers and JSON storage of info strings (invalid UTF-8 is coerced on storage; the check reads the registry back before the request) are outside the model",
+        "the handler's single Read into a 2048-byte buffer is modelled as 'the first 2048 bytes sent' (C01_main_bounded / C01_oversize_no_reply; exercised over loopback TCP with requests of 2047..4000 bytes written in one piece - when the handler closes with unread bytes the kernel resets the connection, which the harness reads as end of stream); TCP segmentation (a request delivered in several segments is cut at the first by the same code), IPv6 peers and JSON storage of info strings (invalid UTF-8 is coerced on storage; the check reads the registry back before the request) are outside the model",
         "listing order is Go map order: the model is run in the order the reply lists the servers; the oracle compares entries as multisets. In browser_end_to_end_any_order and the corollaries the order is a parameter `order` assumed only to permute the repository's result; browser_end_to_end is the instance order = id (registry order, the filter model's order)",
     ],
     "trusted_base": COMMON_TRUSTED + [
@@ -114,7 +146,7 @@ CFG = {
         "generated Facts.lean section `browsing` (whitelist via go/ast cross-checked against the compiled filter.IsQueryField, field cap, minimum length, Info schema via reflection with params.GetParamName)",
     ],
     "manifest": {
-        "text": "Lean theorem C01_main: for every well-formed list request (encodeReq/WfReq) with 1..MaxAllowedNumberOfFields known fields, every requester address, every list of selected servers (well-typed records, none with the all-ones address) and every 23 cipher header draws, the model of Handler.process replies, and the reply decrypted by the SDK reference cipher (C02) and decoded by the independently written SDK framing decoder is exactly the promised list: requester IPv4 and port mod 65536, the known fields in request order, one entry per selected server with IPv4, uint16 query port and the stored value of every declared field (ints decimal, bools 0/1, empty for a missing field, NUL bytes dropped), end marker, nothing after it. C01_main_bounded: the same with the handler's 2048-byte read explicit, for requests of at most 2048 bytes; C01_oversize_no_reply: a well-formed request longer than 2048 bytes fails NewRequest's length test (ErrInvalidRequestFormat) and gets no reply. sdkDecode_pack: the same for packServers alone, any <=255 NUL-free field names and any schema with distinct names; sdkDecode_pack_marshalled: without the typing hypothesis (servers whose Info does not marshal are skipped). parse_encodeReq: NewRequest on a well-formed request filters through the whitelist before the cap, in request order. parse_total: NewRequest never indexes/slices out of range and its field loop terminates, for every input. BrowserReqBridge.newRequest_eq: the model of NewRequest used here and the independently written one used by C06 (BrowserReq06.newRequest) return the same outcome class and field list on every byte string. browser_end_to_end (C01 composed with C03; Lemmas/BrowserEndToEnd.lean: browserHandle = 2048-byte read, NewRequest, query of the request's filter string (blank when empty or rejected), listservers with status master over a registry of stored servers, packServers, Encrypt): for every well-formed request r of at most 2048 bytes with 1..MaxAllowedNumberOfFields known fields, every registry, clock, liveness, requester and header draws (matching records of the details.Info shape, none with the all-ones address) the handler replies and the reply decrypts+decodes to exactly expectedList for the requester, r's known fields in order and the stored servers recs.filter(matching) — status master, refreshed at or after now-liveness, every clause of r.filter satisfied (C03's `selected`) — in registry order, with the stored field values (entryOf_eq: looked up by name in the record the filter read). browser_end_to_end_any_order: the same for any order the repository returns its result in (Go map iteration): the listing is a permutation of recs.filter(matching). Corollaries for any order: browser_lists_only_matching (every decoded entry is the entry of a matching stored server), browser_lists_all_matching (every matching server's entry is present, the entry count equals the number of matching servers, entry multiplicities agree, exactly once when matching servers have distinct entries), browser_malformed_filter_lists_all_live (a rejected filter string lists all live master servers). E2EExample.*: a concrete four-server registry and filtered request evaluated by the kernel (plaintext decode computed; the cipher step via the theorem). facts_ok/facts_parse_ok: the side conditions on the generated whitelist, cap, minimum length and Info schema. The model is tied to the code by differential runs of browsing.NewRequest and of the real browser.Handler over loopback TCP against registries planted through the real repository; the SDK decoder is also run on the Go bytes.",
+        "text": "Lean theorem C01_main: for every well-formed list request (encodeReq/WfReq) with 1..MaxAllowedNumberOfFields known fields, every requester address, every list of selected servers (well-typed records, none with the all-ones address) and every 23 cipher header draws, the model of Handler.process replies, and the reply decrypted by the SDK reference cipher (C02) and decoded by the independently written SDK framing decoder is exactly the promised list: requester IPv4 and port mod 65536, the known fields in request order, one entry per selected server with IPv4, uint16 query port and the stored value of every declared field (ints decimal, bools 0/1, empty for a missing field, NUL bytes dropped), end marker, nothing after it. C01_main_bounded: the same with the handler's 2048-byte read explicit, for requests of at most 2048 bytes; C01_oversize_no_reply: a well-formed request longer than 2048 bytes fails NewRequest's length test (ErrInvalidRequestFormat) and gets no reply. sdkDecode_pack: the same for packServers alone, any <=255 NUL-free field names and any schema with distinct names; sdkDecode_pack_marshalled: without the typing hypothesis (servers whose Info does not marshal are skipped). parse_encodeReq: NewRequest on a well-formed request filters through the whitelist before the cap, in request order. parse_total: NewRequest never indexes/slices out of range and its field loop terminates, for every input. BrowserReqBridge.newRequest_eq: the model of NewRequest used here and the independently written one used by C06 (BrowserReq06.newRequest) return the same outcome class and field list on every byte string. browser_end_to_end (C01 composed with C03; Lemmas/BrowserEndToEnd.lean: browserHandle = 2048-byte read, NewRequest, query of the request's filter string (blank when empty or rejected), listservers with status master over a registry of stored servers, packServers, Encrypt): for every well-formed request r of at most 2048 bytes with 1..MaxAllowedNumberOfFields known fields, every registry, clock, liveness, requester and header draws (matching records of the details.Info shape, none with the all-ones address) the handler replies and the reply decrypts+decodes to exactly expectedList for the requester, r's known fields in order and the stored servers recs.filter(matching) — status master, refreshed at or after now-liveness, every clause of r.filter satisfied (C03's `selected`) — in registry order, with the stored field values (entryOf_eq: looked up by name in the record the filter read). browser_end_to_end_any_order: the same for any order the repository returns its result in (Go map iteration): the listing is a permutation of recs.filter(matching). Corollaries for any order: browser_lists_only_matching (every decoded entry is the entry of a matching stored server), browser_lists_all_matching (every matching server's entry is present, the entry count equals the number of matching servers, entry multiplicities agree, exactly once when matching servers have distinct entries), browser_malformed_filter_lists_all_live (a rejected filter string lists all live master servers). E2EExample.*: a concrete four-server registry and filtered request evaluated by the kernel (plaintext decode computed; the cipher step via the theorem). facts_ok/facts_parse_ok: the side conditions on the generated whitelist, cap, minimum length and Info schema. The model is tied to the code by differential runs of browsing.NewRequest and of the real browser.Handler over loopback TCP against registries planted through the real repository (the driver runs browserHandle itself: non-empty filters, stale, never-refreshed and non-master records, requests up to 4000 bytes against the 2048-byte read); the SDK decoder is also run on the Go bytes.",
         "level_note": "Trusted: Lean kernel; axioms propext, Quot.sound, Classical.choice; the SDK framing/cipher references as the definition of 'stock client'; the finite differential run as evidence that Model/Browsing.lean behaves like the Go code; generated Facts.lean.",
         "technique": "Lean 4 proof (round-trip by structural induction with scanner lemmas; composition with C02) + differential correspondence",
         "design_ref": "DESIGN.md §5 C01",
